@@ -41,7 +41,14 @@ def validate(trace_module: str, constants: dict, traces: list[list[dict]], *, in
                 f.write(json.dumps(dict(events=[normalise(e, extra_fields) for e in tr])) + "\n")
         cfg = tlc.make_cfg(spec="TSpec", constants=constants, invariants=["Progress", *invariants],
                            postcondition="Post", deadlock=False)
-        res = tlc.run(trace_module, cfg, workers=1, env={"TRACE_FILE": str(path)}, timeout=timeout)
+        try:
+            res = tlc.run(trace_module, cfg, workers=1, env={"TRACE_FILE": str(path)}, timeout=timeout)
+        except tlc.TLCMachineryError as exc:
+            if "TLCGet" in str(exc) and "undefined" in str(exc):
+                # no trace has an initial state in the trace spec (e.g. recorded roles impossible in the model): nothing accepted
+                res = tlc.TLCResult(0, str(exc), 0.0)
+                return res, [(0, False)] * len(traces)
+            raise
         verdicts = res.printed("verdict")
         if not verdicts:
             raise tlc.TLCMachineryError(f"no verdict printed by {trace_module}:\n{res.out[-1500:]}")
